@@ -155,6 +155,18 @@ impl<'a> Ctx<'a> {
                 self.complain("BINDING", input, format!("[{name}] the compiled lexer yields {:?} (end {}), the graph interpreter predicts {:?} (end {})", r.items, r.end_pos, model.items, model.end_pos), json!({}));
             }
         }
+        if self.prop == "C04" {
+            // the same input as a prefix buffer: the span at None and every committed span must sit on boundaries
+            let mut x = std::mem::take(&mut self.b_x);
+            for be in [0u8, 1] {
+                real(d.e.idx, be, &Req { input: &boxed, partial: true, trace: false }, &mut x);
+                self.runs += 1;
+                if x.flags & (vrt_api::BAD_SPAN | vrt_api::SLICE_MISMATCH) != 0 {
+                    self.complain("BOUNDARY", input, format!("[partial, backend {be}] a span boundary is out of range or inside a code point: items {:?} end {}..{}", x.items, x.end_start, x.end_pos), json!({"partial": true}));
+                }
+            }
+            self.b_x = x;
+        }
         if self.prop == "C06" && tc != sm {
             self.complain("BACKENDS-DIFFER", input, format!("tailcall {:?} end {}..{} flags {} | state machine {:?} end {}..{} flags {}", tc.items, tc.end_start, tc.end_pos, tc.flags, sm.items, sm.end_start, sm.end_pos, sm.flags), json!({}));
         }
